@@ -79,6 +79,9 @@ static void check_msg(const std::vector<uint8_t>& m, const Key& k, const char* f
   X(nI, "io.github.eieio.examples.interface.Customer")                                                                   \
   X(nU, "\xc3\xa9t\xc3\xa9\xe2\x82\xac")                                                                                   \
   X(nH, "\xff\xfe\x80\x7f\x81")                                                                                           \
+  X(nZ1, "proto\0v1")                                                                                                     \
+  X(nZ2, "\0")                                                                                                            \
+  X(nZ3, "ab\0\0cd\0")                                                                                                    \
   X(nL, "0123456789012345678901234567890123456789012345678901234567890123456789012345678901234567890123456789"           \
         "0123456789012345678901234567890123456789012345678901234567890123456789012345678901234567890123456789"           \
         "01234567890123456789012345678901234567890123456789012345678901234567890123456789")
